@@ -768,3 +768,329 @@ def check(repo, modules, contracts, class_fields, class_self_tag, callable_param
             violations.append({"name": o["name"], "detail": o["detail"], "concrete": None})
     return {"check": "effects", "obligations": obligations, "violations": violations,
             "functions_analysed": len(res), "per_function": per_fn}
+
+
+# =====================================================================================================================
+# EXPAND effect (C16): numerical expansion of a bit length set
+# =====================================================================================================================
+BLS_T, BLSN_T, CBLS_T = "BLS", "BLSN", "CBLS"   # a BitLengthSet / the divisor-bounded result of `%` / a container of them
+CONSUMERS = {"set", "frozenset", "list", "tuple", "sorted", "len", "min", "max", "sum", "iter", "next", "any", "all", "map",
+             "filter", "zip", "enumerate", "reversed", "dict"}
+
+
+def _ann_type(ann: Optional[str]) -> Set[str]:
+    """Abstract type of a value from its annotation text."""
+    if not ann:
+        return set()
+    a = ann.replace("typing.", "").replace('"', "").replace("'", "").strip()
+    if "BitLengthSet" not in a:
+        return set()
+    if a == "BitLengthSet" or a.startswith(("Union[", "Optional[")):
+        return {BLS_T}
+    return {CBLS_T}
+
+
+class ExpandChecker:
+    """Declared-vs-inferred EXPAND effect.  EXPAND sites of a function body:
+         * a call `x.expand()` or of any function / method whose short name is a declared expander (callee effect from the
+           callee's declaration, name based),
+         * a may-be-BitLengthSet value (type BLS; not BLSN) consumed by iteration: `for`, comprehension, `*x`, an argument of
+           set/list/tuple/sorted/len/min/max/sum/iter/next/any/all/map/filter/zip/enumerate/reversed/dict, right operand of `in`.
+       Typing is by annotations and initialisers (assumption A6): parameters / returns / properties annotated with
+       BitLengthSet, `BitLengthSet(...)`, `+` / `|` with such an operand, fields and locals assigned such expressions; the
+       result of `bls % n` is BLSN (Nullary-backed, within [0, n): value-level contract of BitLengthSet.__mod__)."""
+
+    def __init__(self, repo, modules: List[str], expanders: Dict[str, str]):
+        self.repo = repo
+        self.modules = modules
+        self.expanders = expanders                 # qualname -> why it may expand
+        self.expander_names = {q.split(".")[-1] for q in expanders}
+        self.functions: Dict[str, Tuple[ast.AST, Optional[str], str]] = {}
+        self.ret_type: Dict[str, Set[str]] = {}    # short name -> abstract type of the result (functions / properties)
+        self.attr_type: Dict[str, Set[str]] = {}   # attribute name -> abstract type (fields, by assignment)
+        for m in modules:
+            mi = repo.modules[m]
+            for st in mi.tree.body:
+                if isinstance(st, ast.FunctionDef) and not st.name.startswith("_unittest"):
+                    self.functions[m + "." + st.name] = (st, None, m)
+                elif isinstance(st, ast.ClassDef):
+                    self._index_class(m, m, st)
+        for q, (node, cls, mod) in self.functions.items():
+            t = _ann_type(ast.unparse(node.returns)) if node.returns is not None else set()
+            self.ret_type.setdefault(node.name, set()).update(t)
+        self.ret_type.setdefault("BitLengthSet", set()).add(BLS_T)
+
+    def _index_class(self, m, prefix, st):
+        for sub in st.body:
+            if isinstance(sub, ast.FunctionDef):
+                self.functions["%s.%s.%s" % (prefix, st.name, sub.name)] = (sub, st.name, m)
+            elif isinstance(sub, ast.ClassDef):
+                self._index_class(m, prefix + "." + st.name, sub)
+
+    # ---------------------------------------------------------------- one function
+    def analyse(self, q, final: bool):
+        node, cls, mod = self.functions[q]
+        env: Dict[str, Set[str]] = {}
+        a = node.args
+        params = a.posonlyargs + a.args + a.kwonlyargs
+        for i, p in enumerate(params):
+            t = _ann_type(ast.unparse(p.annotation)) if p.annotation is not None else set()
+            if i == 0 and cls == "BitLengthSet" and p.arg == "self":
+                t = {BLS_T}
+            env[p.arg] = set(t)
+        sites: List[str] = []
+        rets: Set[str] = set()
+        changed = [False]
+
+        def bind(name, t):
+            cur = env.setdefault(name, set())
+            if not t <= cur:
+                cur |= t
+                changed[0] = True
+
+        def elem(t):
+            return {BLS_T} if CBLS_T in t else set()
+
+        def site(n, what):
+            if final:
+                sites.append("line %d: %s" % (getattr(n, "lineno", 0), what))
+
+        def consume(n, t, what):
+            if BLS_T in t:
+                site(n, "%s of a BitLengthSet" % what)
+
+        def store(target, t):
+            if isinstance(target, ast.Name):
+                bind(target.id, t)
+            elif isinstance(target, (ast.Tuple, ast.List)):
+                for x in target.elts:
+                    store(x.value if isinstance(x, ast.Starred) else x, elem(t) | (t & {BLS_T}))
+            elif isinstance(target, ast.Attribute):
+                ev(target.value)
+                cur = self.attr_type.setdefault(target.attr, set())
+                if not t <= cur:
+                    cur |= t
+                    changed[0] = True
+            elif isinstance(target, ast.Subscript):
+                ev(target.value)
+                ev(target.slice)
+
+        def ev(e) -> Set[str]:
+            if e is None:
+                return set()
+            if isinstance(e, ast.Name):
+                return set(env.get(e.id, set()))
+            if isinstance(e, ast.Attribute):
+                ev(e.value)
+                if e.attr in self.expander_names and e.attr in self.properties and isinstance(e.ctx, ast.Load):
+                    site(e, "read of the declared expander property %s" % e.attr)
+                out = set(self.attr_type.get(e.attr, set()))
+                out |= self.ret_type.get(e.attr, set()) if e.attr in self.properties else set()
+                return out
+            if isinstance(e, ast.Call):
+                return call(e)
+            if isinstance(e, ast.BinOp):
+                l, r = ev(e.left), ev(e.right)
+                if isinstance(e.op, ast.Mod):
+                    return {BLSN_T} if BLS_T in l else set()
+                if isinstance(e.op, (ast.Add, ast.BitOr)) and (BLS_T in l or BLS_T in r):
+                    return {BLS_T}
+                return set()
+            if isinstance(e, ast.Compare):
+                ev(e.left)
+                for op, c in zip(e.ops, e.comparators):
+                    t = ev(c)
+                    if isinstance(op, (ast.In, ast.NotIn)):
+                        consume(c, t, "membership test")
+                return set()
+            if isinstance(e, (ast.ListComp, ast.SetComp, ast.GeneratorExp, ast.DictComp)):
+                for g in e.generators:
+                    t = ev(g.iter)
+                    consume(g.iter, t, "iteration")
+                    store(g.target, elem(t))
+                    for c in g.ifs:
+                        ev(c)
+                if isinstance(e, ast.DictComp):
+                    ev(e.key)
+                    ev(e.value)
+                    return set()
+                return {CBLS_T} if BLS_T in ev(e.elt) else set()
+            if isinstance(e, (ast.List, ast.Tuple, ast.Set)):
+                out: Set[str] = set()
+                for x in e.elts:
+                    if isinstance(x, ast.Starred):
+                        t = ev(x.value)
+                        consume(x, t, "unpacking")
+                    else:
+                        out |= ev(x)
+                return {CBLS_T} if (BLS_T in out or CBLS_T in out) else set()
+            if isinstance(e, ast.Subscript):
+                ev(e.slice)
+                t = ev(e.value)
+                return elem(t) | ({CBLS_T} if CBLS_T in t and isinstance(e.slice, ast.Slice) else set())
+            if isinstance(e, ast.IfExp):
+                ev(e.test)
+                return ev(e.body) | ev(e.orelse)
+            if isinstance(e, ast.BoolOp):
+                out = set()
+                for v in e.values:
+                    out |= ev(v)
+                return out
+            if isinstance(e, ast.Lambda):
+                return ev(e.body)
+            if isinstance(e, ast.Starred):
+                t = ev(e.value)
+                consume(e, t, "unpacking")
+                return set()
+            if isinstance(e, (ast.Yield, ast.YieldFrom, ast.Await)):
+                return ev(e.value)
+            out = set()
+            for c in ast.iter_child_nodes(e):
+                if isinstance(c, ast.expr):
+                    ev(c)
+            return out
+
+        def call(c: ast.Call) -> Set[str]:
+            f = c.func
+            name = f.id if isinstance(f, ast.Name) else (f.attr if isinstance(f, ast.Attribute) else None)
+            if isinstance(f, ast.Attribute):
+                ev(f.value)
+            argt = [ev(x.value if isinstance(x, ast.Starred) else x) for x in c.args]
+            for x, t in zip(c.args, argt):
+                if isinstance(x, ast.Starred):
+                    consume(x, t, "unpacking")
+            kwt = {k.arg: ev(k.value) for k in c.keywords}
+            if name in REFLECTION and isinstance(f, ast.Name):
+                site(c, "reflection builtin %s (A1)" % name)
+            if name in self.expander_names:
+                site(c, "call of the declared expander %s" % name)
+            if isinstance(f, ast.Name) and name in CONSUMERS:
+                for x, t in zip(c.args, argt):
+                    consume(x, t, "%s()" % name)
+                # lambdas given to map/filter/sorted receive the elements
+                for x in c.args:
+                    if isinstance(x, ast.Lambda):
+                        for p in x.args.args:
+                            for t in argt:
+                                bind(p.arg, elem(t))
+                if name in ("list", "tuple", "sorted", "reversed", "set", "frozenset", "filter"):
+                    return {CBLS_T} if any(CBLS_T in t for t in argt) else set()
+                if name in ("next", "min", "max"):
+                    out = set()
+                    for t in argt:
+                        out |= elem(t)
+                    return out
+                return set()
+            if name is not None and name in self.ret_type:
+                return set(self.ret_type[name])
+            return set()
+
+        def walk(stmts):
+            for st in stmts:
+                if isinstance(st, (ast.FunctionDef, ast.AsyncFunctionDef)):
+                    for p in st.args.args + st.args.kwonlyargs:
+                        bind(p.arg, _ann_type(ast.unparse(p.annotation)) if p.annotation is not None else set())
+                    walk(st.body)
+                elif isinstance(st, ast.ClassDef):
+                    walk([x for x in st.body if isinstance(x, ast.FunctionDef)])
+                elif isinstance(st, ast.Return):
+                    rets.update(ev(st.value))
+                elif isinstance(st, ast.Assign):
+                    t = ev(st.value)
+                    for tg in st.targets:
+                        store(tg, t)
+                elif isinstance(st, ast.AnnAssign):
+                    t = ev(st.value) | _ann_type(ast.unparse(st.annotation))
+                    store(st.target, t)
+                elif isinstance(st, ast.AugAssign):
+                    t = ev(st.value)
+                    cur = ev(_as_load(st.target))
+                    if isinstance(st.op, (ast.Add, ast.BitOr)) and (BLS_T in t or BLS_T in cur):
+                        store(st.target, {BLS_T})
+                    elif isinstance(st.op, ast.BitOr) or isinstance(st.op, ast.Add):
+                        store(st.target, t)
+                elif isinstance(st, (ast.For, ast.AsyncFor)):
+                    t = ev(st.iter)
+                    consume(st.iter, t, "iteration")
+                    store(st.target, elem(t))
+                    walk(st.body)
+                    walk(st.orelse)
+                elif isinstance(st, ast.While):
+                    ev(st.test)
+                    walk(st.body)
+                    walk(st.orelse)
+                elif isinstance(st, ast.If):
+                    ev(st.test)
+                    walk(st.body)
+                    walk(st.orelse)
+                elif isinstance(st, (ast.With, ast.AsyncWith)):
+                    for it in st.items:
+                        t = ev(it.context_expr)
+                        if it.optional_vars is not None:
+                            store(it.optional_vars, t)
+                    walk(st.body)
+                elif isinstance(st, ast.Try):
+                    walk(st.body)
+                    for h in st.handlers:
+                        walk(h.body)
+                    walk(st.orelse)
+                    walk(st.finalbody)
+                elif isinstance(st, ast.Expr):
+                    ev(st.value)
+                elif isinstance(st, ast.Assert):
+                    ev(st.test)
+                    ev(st.msg)
+                elif isinstance(st, ast.Raise):
+                    ev(st.exc)
+                elif isinstance(st, (ast.Global, ast.Nonlocal)):
+                    site(st, "global / nonlocal statement (A1)")
+                elif isinstance(st, ast.Delete):
+                    pass
+
+        for _ in range(6):
+            changed[0] = False
+            walk(node.body)
+            if not changed[0]:
+                break
+        cur = self.ret_type.setdefault(node.name, set())
+        new_ret = rets - cur
+        cur |= rets
+        return sites, bool(new_ret) or changed[0]
+
+    def run(self):
+        self.properties = {node.name for q, (node, cls, mod) in self.functions.items()
+                           if any(isinstance(d, ast.Name) and d.id == "property" for d in node.decorator_list)}
+        # global fixpoint of result / field types, then the judging pass
+        for _ in range(6):
+            moved = False
+            for q in self.functions:
+                _, ch = self.analyse(q, final=False)
+                moved = moved or ch
+            if not moved:
+                break
+        out = {}
+        for q in sorted(self.functions):
+            sites, _ = self.analyse(q, final=True)
+            out[q] = sites
+        return out
+
+
+def check_expand(repo, modules, expanders: Dict[str, str], must_be_free: List[str]) -> Dict[str, Any]:
+    ck = ExpandChecker(repo, modules, expanders)
+    for q in list(expanders) + list(must_be_free):
+        if q not in ck.functions:
+            raise KeyError("EXPAND contract for unknown function %s" % q)
+    res = ck.run()
+    obligations, per_fn = [], {}
+    for q, sites in res.items():
+        sq = q.replace("pydsdl.", "")
+        declared = q in expanders
+        if sites:
+            per_fn[sq] = {"declared_expander": declared, "sites": sites}
+        ok = declared or not sites
+        obligations.append({"name": "%s/effect#expand-%s" % (sq, "declared" if declared else "free"), "ok": ok,
+                            "detail": "" if ok else "EXPAND sites in a function declared EXPAND-free: " + "; ".join(sites),
+                            "function": q})
+    return {"check": "effects-expand", "obligations": obligations, "violations": [], "functions_analysed": len(res),
+            "expand_sites": per_fn, "types": {"attributes": {k: sorted(v) for k, v in ck.attr_type.items() if v},
+                                              "results": {k: sorted(v) for k, v in ck.ret_type.items() if v}}}
